@@ -73,7 +73,7 @@ var props = []prop{
 	{ID: "C12", Level: "exploration", Shards: 16},
 	{ID: "C13", Level: "exploration", Shards: 16},
 	{ID: "C14", Level: "model_checking", Overlay: true, Shards: 16, QuickBudget: 90, ThoroughBudget: 900, RacePkg: "subrace", RaceBodies: "C14-,C15-sync"},
-	{ID: "C15", Level: "model_checking", Overlay: true, Shards: 16, QuickBudget: 90, ThoroughBudget: 900, RacePkg: "subrace", RaceBodies: "C15-"},
+	{ID: "C15", Level: "model_checking", Overlay: true, Shards: 16, QuickBudget: 120, ThoroughBudget: 900, RacePkg: "subrace", RaceBodies: "C15-"},
 	{ID: "C16", Level: "model_checking", Overlay: true, Shards: 16, QuickBudget: 75, ThoroughBudget: 900, RacePkg: "subrace", RaceBodies: "C16-"},
 	{ID: "C17", Level: "exploration", Shards: 16},
 	{ID: "C18", Level: "exploration", Shards: 16},
